@@ -84,6 +84,8 @@ def chk_flux_triple(case, acc, seed):
     a, b, c = case['units']
     waves = np.array([1e-10, 3e-8, 1.1e-7, 200e-9, 551e-9, 1.3e-6, 9.7e-6, 1e-3, 2.0])       # X-ray to radio
     fluxes = np.array([3.0, 0.125, 7.0, 1e-3, 2.5, 4e7, 1.0, 1e-12, 5.0])
+    if case.get('signed'):
+        fluxes = fluxes * np.array([1, -1, 1, -1, -1, 1, -1, 0, 1.0])     # difference / continuum-subtracted spectra: both signs, an exact zero
     try:
         ab = rad.Unit(a).to(fluxes, b, waves)
         abc = rad.Unit(b).to(ab, c, waves)
@@ -421,6 +423,8 @@ def t_triples(arg, acc):
         for tr in itertools.product(FNAMES, repeat=3):
             acc.transitions += 1
             chk_flux_triple({'kind': 'flux', 'units': list(tr)}, acc, arg['seed'])
+            acc.transitions += 1
+            chk_flux_triple({'kind': 'flux', 'units': list(tr), 'signed': True}, acc, arg['seed'])
         for band in BANDS:
             chk_vega({'kind': 'vega', 'band': band}, acc, arg['seed'])
 
